@@ -438,6 +438,27 @@ def _leading_zero_forms():
 
 
 NUMBER_BAD += [x for x in _leading_zero_forms() if x not in NUMBER_BAD]
+
+
+def _exponent_underscore_forms():
+    """Float / imaginary literals with an underscore or nothing where an exponent digit must be: every mantissa shape x
+    exponent letter x sign x digit pattern; only the ones the reference rejects are kept."""
+    import ast as _ast
+    out = []
+    for mant in ("1", "1.", "1.5", ".5", "1_0.0_1", "0", "1_0"):
+        for e in ("e", "E"):
+            for sign in ("", "+", "-"):
+                for digs in ("", "_", "_3", "3_", "3__0", "_3_", "3_0_", "__3"):
+                    for suf in ("", "j"):
+                        lit = mant + e + sign + digs + suf
+                        try:
+                            _ast.parse("x = " + lit + "\n")
+                        except SyntaxError:
+                            out.append(lit)
+    return out
+
+
+NUMBER_BAD += [x for x in _exponent_underscore_forms() if x not in NUMBER_BAD]
 CONTEXTS = ["x = %s\n", "f(%s)\n", "if a:\n    y = [%s]\n", "class C:\n  def m(self): return (%s)\n", "é = (%s,)\n"]
 
 
